@@ -187,11 +187,17 @@ pub fn draw_h2_opts(sim: &Sim) -> (ServerOpts, ClientOpts) {
     // swarm: in a third of the runs the tuning knobs that must be transparent to a call's outcome
     // are set to drawn (often extreme) values, so that correctness never depends on the defaults
     if sim.chance(1, 3) {
+        // Not transparent, hence not drawn small (both were tried and raised false alarms, DESIGN.md
+        // 13.5): a server `concurrency_limit_per_connection` below the number of concurrent calls
+        // dead-locks with HTTP/2 flow control (the request bodies of calls waiting for a permit fill
+        // the connection window, the call holding the permit waits for its own request body), and a
+        // small `max_concurrent_streams` makes h2 refuse streams (REFUSED_STREAM -> UNAVAILABLE)
+        // that the client opened while the server still counted a finished one.
         if sim.chance(1, 2) {
-            so.concurrency_limit = Some(sim.pick(&[1usize, 2, 8]));
+            so.concurrency_limit = Some(sim.pick(&[64usize, 1024]));
         }
         if sim.chance(1, 2) {
-            so.max_concurrent_streams = Some(sim.pick(&[1u32, 2, 100]));
+            so.max_concurrent_streams = Some(sim.pick(&[100u32, 1000]));
         }
         if sim.chance(1, 3) {
             so.keepalive = Some((Duration::from_millis(sim.pick(&[300u64, 5_000])), Duration::from_secs(20)));
